@@ -32,10 +32,57 @@ def _req(c, cls_model, ctor, extra_assert=None):
     c.hook("before", ctor, asserts)
 
 
+def _transaction_result_declaration():
+    """(base class names, {member: literal value}) of TransactionResult as declared in transaction_manager.py"""
+    import ast
+    from pyvc import source
+    mod = source.module("aiokafka.producer.transaction_manager")
+    for n in mod.tree.body:
+        if isinstance(n, ast.ClassDef) and n.name == "TransactionResult":
+            vals = {}
+            for st in n.body:
+                if isinstance(st, ast.Assign) and len(st.targets) == 1 and isinstance(st.targets[0], ast.Name) \
+                        and isinstance(st.value, ast.Constant):
+                    vals[st.targets[0].id] = st.value.value
+            return [ast.unparse(b) for b in n.bases], vals
+    return [], {}
+
+
 @contract(MOD + ":EndTxnHandler.create_request", ["C07", "C16"])
 def _(c):
     _req(c, "EndTxnHandler", "EndTxnRequest",
          ("assert", "the-transaction-ends-the-way-that-was-requested", "kw_transaction_result == self._commit_result"))
+    # The member handed over goes into the EndTxn request's Boolean `transaction_result` field, which the struct packs by
+    # truth value: ABORT has to be false and COMMIT true *as booleans*. That holds because TransactionResult is an IntEnum
+    # with ABORT = 0, COMMIT = 1 (every member of a plain Enum is true). Read from the declaration on every run.
+    bases, vals = _transaction_result_declaration()
+    ok = any(b.endswith("IntEnum") for b in bases) and vals.get("ABORT") == 0 and vals.get("COMMIT") == 1
+    c.ensures("on-the-wire-ABORT-is-false-and-COMMIT-is-true", "True" if ok else "False")
+    c.replay_fn = lambda model, ob=None: {"script": _END_TXN_WIRE_SCRIPT}
+
+
+# replay: the request the real handler builds, prepared for v0 and encoded: the last byte is the transaction result
+_END_TXN_WIRE_SCRIPT = '''
+import asyncio
+from unittest import mock
+from aiokafka.producer.sender import EndTxnHandler
+from aiokafka.producer.transaction_manager import TransactionManager, TransactionResult
+async def main():
+    bad = []
+    for result, want in ((TransactionResult.ABORT, 0), (TransactionResult.COMMIT, 1)):
+        tm = TransactionManager("tid", 1000)
+        tm.set_pid_and_epoch(7, 3)
+        snd = mock.MagicMock()
+        snd._txn_manager = tm
+        req = EndTxnHandler(snd, result).create_request()
+        raw = req.prepare({26: (0, 0)}).encode()
+        if raw[-1] != want:
+            bad.append("EndTxn for %s carries transaction_result byte %d on the wire (0 = abort, 1 = commit)" % (result.name, raw[-1]))
+    return bad
+bad = asyncio.run(main())
+VIOLATED = bool(bad)
+DETAIL = "%r" % (bad,) if bad else "ok"
+'''
 
 
 @contract(MOD + ":AddOffsetsToTxnHandler.create_request", ["C07"])
